@@ -2244,6 +2244,20 @@ void RecursiveParser::processImport(
                             std::istreambuf_iterator<char>());
     file.close();
 
+    // a module that is already being parsed further up the import chain
+    // (import cycle) is not parsed again: its definitions arrive when that
+    // parse completes (without this test two modules importing each other
+    // recursed until the stack overflowed)
+    static std::vector<std::string> modules_in_progress;
+    if (std::find(modules_in_progress.begin(), modules_in_progress.end(),
+                  resolved_path) != modules_in_progress.end()) {
+        return;
+    }
+    modules_in_progress.push_back(resolved_path);
+    struct InProgressGuard {
+        ~InProgressGuard() { modules_in_progress.pop_back(); }
+    } in_progress_guard;
+
     // 新しいParserインスタンスでモジュールをパース
     RecursiveParser module_parser(source_code, resolved_path);
     module_parser.setDebugMode(debug_mode_);
